@@ -48,7 +48,7 @@ def adt_fields(f, path):
     raise AnalysisError('ADT %s not found' % path)
 
 
-def parser_run(f, part, extra=None):
+def parser_run(f, part, extra=None, switch_hook=None):
     """from_buf with cluster_bits restricted to `part` (and the fields in `extra` to theirs);
     -> (ai, frame, {block: (state, header vn)} of the Ok constructions, hits)"""
     raw = adt_fields(f, RAW)
@@ -79,6 +79,7 @@ def parser_run(f, part, extra=None):
 
     ai.after_call['Options::deserialize'] = after_deser
     ai.stmt_hook = on_stmt
+    ai.switch_hook = switch_hook
     frame, exits, states = ai.analyze(FROM_BUF)
     # only the Ok constructions of the final fixpoint count: re-derive from the last visit per block
     last = {}
@@ -111,6 +112,9 @@ def run(ctx, rep):
     parser_rules(f, rep)
     ctor_rules(f, rep, 'C14.2')
     inflate_rule(f, rep)
+    from .c09 import compressed_read_rule
+    rep.rule('C14.6', 'a short or misplaced read of a compressed cluster cannot make the slice of the bounce buffer panic (start <= end <= bytes read)')
+    compressed_read_rule(f, rep, 'C14.6')
 
 
 def parser_rules(f, rep):
